@@ -737,8 +737,16 @@ class Export:
         return {"program": self.desc, "config": self.cfg}
 
 
+# further program kinds registered by other generator modules (kind -> builder(desc) -> (fn, shapes));
+# e.g. harness/c03_cover.py registers "cover"
+EXTRA_KINDS: dict[str, Callable] = {}
+
+
 def prog_fn_and_shapes(desc: dict) -> tuple[Callable, list]:
     k = desc["kind"]
+    if k in EXTRA_KINDS:
+        fn, shapes = EXTRA_KINDS[k](desc)
+        return fn, [tuple(s) if not isinstance(s, jax.ShapeDtypeStruct) else s for s in shapes]
     if k == "tree":
         return build_tree(desc["tree"]), [tuple(desc.get("shape", ("B", 3)))]
     if k == "named":
@@ -1011,6 +1019,8 @@ def is_rank4(desc: dict) -> bool:
         return len(desc.get("shape", [])) == 4
     if desc["kind"] == "named":
         return desc["name"] == "nhwc"
+    if desc["kind"] == "cover":
+        return True
     return False
 
 
